@@ -90,6 +90,12 @@ KEnabled(q, st) ==
     [] q.k = "SB" -> ReadyR(st.occ, st.nw) \/ ReadyW(st.occ, st.nr)
     [] OTHER -> FALSE
 
+\* at level C a task waits for select to report its descriptor ready (for a
+\* write: room for an atomic request, even if a larger request could transfer
+\* a part right now); progress is guaranteed because readiness eventually
+\* holds when the other side proceeds
+CReady(q, st) == IF q.k \in {"CR", "CRA"} THEN ReadyR(st.occ, st.nw) ELSE ReadyW(st.occ, st.nr)
+
 SameKernel(pre, post) == post.occ = pre.occ /\ post.runs = pre.runs
 Finished(res, r, v)   == res.r = r /\ res.v = v
 NoData(res)           == res.data = <<>>
@@ -173,7 +179,7 @@ KStep(r) ==
                /\ SameKernel(pre, post) /\ post.nr = pre.nr /\ post.nw = pre.nw /\ post.act = pre.act
                /\ \A b \in Actors(post) :
                     /\ pre.woken[b] => post.woken[b]
-                    /\ (Pending(post, b) /\ post.act[b].k \in CKinds /\ KEnabled(post.act[b], post)) => post.woken[b]
+                    /\ (Pending(post, b) /\ post.act[b].k \in CKinds /\ CReady(post.act[b], post)) => post.woken[b]
           [] op.op \in {"closeR", "closeW"} ->
                /\ res.r = "ok" /\ SameKernel(pre, post) /\ post.act = pre.act
                /\ post.nr = pre.nr - (IF op.op = "closeR" THEN 1 ELSE 0)
